@@ -251,6 +251,55 @@ def check_refusing_targets(t):
                                             "attribute": attr, "chain_length": depth})
 
 
+def check_link_classes(t):
+    """SymlinkNodeMixin subclasses may provide `target` in any way an attribute can be provided: set in __init__ (the
+    documented way), as a class attribute, or as a property.  Forwarding and tree position are the same for all."""
+    import anytree
+
+    tgt = anytree.Node("tgt", colour="red")
+    other = anytree.Node("other", colour="blue")
+    parent = anytree.Node("parent")
+
+    class ViaInit(anytree.SymlinkNodeMixin):
+        def __init__(self, target):
+            self.target = target
+
+    ViaClassAttr = type("ViaClassAttr", (anytree.SymlinkNodeMixin,), {"target": tgt})
+    ViaProperty = type("ViaProperty", (anytree.SymlinkNodeMixin,), {"target": property(lambda self: tgt)})
+    for label, mk_link in (("SymlinkNode", lambda: anytree.SymlinkNode(tgt)), ("target set in __init__", lambda: ViaInit(tgt)),
+                           ("target as class attribute", ViaClassAttr), ("target as property", ViaProperty)):
+        tgt.colour = "red"
+        link = mk_link()
+        why = None
+        if read_attr(link, "colour") != ("val", "red") or read_attr(link, "name") != ("val", "tgt"):
+            why = "reads on the link do not return the target's values"
+        elif not hasattr(link, "colour") or hasattr(link, "no_such_attribute"):
+            why = "hasattr on the link disagrees with the target"
+        else:
+            link.colour = "green"
+            link.fresh = 1
+            if tgt.colour != "green" or getattr(tgt, "fresh", None) != 1:
+                why = "writes on the link are not stored on the target"
+            elif any(k in own_dict(link) for k in ("colour", "fresh")):
+                why = "a forwarded write was kept on the link itself"
+            else:
+                tgt.colour = "later"
+                if read_attr(link, "colour") != ("val", "later"):
+                    why = "the link does not show the target's current value"
+        if why is None:
+            link.parent = parent
+            kid = anytree.Node("kid", parent=link)
+            if link.parent is not parent or parent.children[-1] is not link or link.children != (kid,) or tgt.parent is not None or tgt.children:
+                why = "the link's tree position is not its own"
+            link.parent = None
+            kid.parent = None
+        tgt.__dict__.pop("fresh", None)
+        t.c["evaluations"] += 1
+        t.c["link_class_variants"] += 1
+        if why:
+            t.violation("C20: %s (%s)" % (why, label), {"engine": "E2", "module": MOD, "part": "link-classes", "link_class": label})
+
+
 def check_link_positions(t):
     """A link takes part in trees like any other node - also below / above nodes of unusual classes."""
     import anytree
@@ -318,6 +367,7 @@ def job_refusing():
     core.guard(t, "C20", {"engine": "E2", "module": MOD, "part": "long-chain"}, check_long_chain, t)
     core.guard(t, "C20", {"engine": "E2", "module": MOD, "part": "refusing-target"}, check_refusing_targets, t)
     core.guard(t, "C20", {"engine": "E2", "module": MOD, "part": "link-positions"}, check_link_positions, t)
+    core.guard(t, "C20", {"engine": "E2", "module": MOD, "part": "link-classes"}, check_link_classes, t)
     return t
 
 
@@ -358,6 +408,9 @@ def replay(c):
         return [v["why"] for v in t.violations]
     if c.get("part") == "refusing-target":
         check_refusing_targets(t)
+        return [v["why"] for v in t.violations]
+    if c.get("part") == "link-classes":
+        check_link_classes(t)
         return [v["why"] for v in t.violations]
     run_sequence(t, _tup(c["witness"]), _tup(c["events"]))
     return [v["why"] for v in t.violations]
@@ -403,7 +456,7 @@ def run(tier):
         "bounds": summ + [{"attribute_start_states": len(sel), "of": len(states), "event_menu": 22, "depth": "2 (3 from the initial state)"}],
     }
     return {"tally": t, "coverage": cov, "known": known,
-            "guards": ("positional_calls", "writes_through_links", "structural_events", "constructor_kwargs", "sequences", "refusals", "pre_hook_vetoes",
+            "guards": ("link_class_variants", "positional_calls", "writes_through_links", "structural_events", "constructor_kwargs", "sequences", "refusals", "pre_hook_vetoes",
                        "retargets", "refused_writes", "constructor_positions", "equal_value_writes", "none_writes", "long_chain_checks"),
             "assumptions": ["attribute names {foo, bar, name, baz, nope}; bounded universes", "C03 known findings apply to link nodes "
                             "identically (same setter code) and are matched exactly as in C03"]}
